@@ -157,7 +157,7 @@ partial def loop (h : IO.FS.Stream) (names : List String) (st : St) : IO St := d
           st := { st with dead := name :: st.dead, rejects := st.rejects + 1 }
           if st.execNo == 0 then st := { st with dead := [] }   -- differential files: keep going
     if names.contains "cv" && !st.cvF3 && cvHasF3 st.layers.cv then
-      IO.println s!"ORACLE exec={st.execNo} line={st.lineNo} layer=cv swallowed-wakeup: an nsync_wait_n record already unlinked by a waker was removed again by its owner's cv_dequeue (the consumed wake-up is reported as not ready) | {line}"
+      IO.println s!"ORACLE exec={st.execNo} line={st.lineNo} layer=cv waitn-swallowed-wakeup: an nsync_wait_n record already unlinked by a waker was removed again by its owner's cv_dequeue (the consumed wake-up is reported as not ready) | {line}"
       st := { st with cvF3 := true }
     loop h names st
 
